@@ -345,6 +345,14 @@ pub fn frames_for(cookies: &HashMap<crate::model::FlowKey, u32>, thorough: bool)
         v.push((format!("{}-arp", n), vec![], eth(&[0xff; 6], &smac, ET_ARP, &Arp::request(smac, [10, 0, 0, 9], [10, 0, 0, 1]).bytes())));
         v.push((format!("{}-ns", n), vec![], eth(&crate::driver::MAC_SRV, &smac, ET_IP6, &nd_ns(&cli6(), &srv6(), &srv6(), &slla(&smac), 0))));
     }
+    // STUN CHANGE-REQUEST flag combinations (the logged destination port is the frame's, or the
+    // reply's own source port on send events)
+    for fl in [0u8, 2, 4, 6, 0xff] {
+        for v6 in [false, true] {
+            v.push((format!("stun-change-{}-{}", fl, v6), vec![], flow(v6, 40000, 3478).udp(&stun_classic(&stun_attr(3, &[0, 0, 0, fl]), &ID16))));
+        }
+        v.push((format!("stun-change-{}-port65535", fl), vec![], flow4(40000, 65535).udp(&stun_classic(&stun_attr(3, &[0, 0, 0, fl]), &ID16))));
+    }
     // printed forms of every length: IPv6 addresses that do not compress, 5-digit ports
     {
         let mut f = flow6(54321, 65432);
